@@ -30,6 +30,7 @@ pub struct FnSpec {
     pub forloop: BTreeSet<usize>,
     pub may_panic: BTreeSet<usize>,
     pub letsplit: Vec<String>,
+    pub letsplit_named: Vec<(String, String)>, // (`METHOD#k`, NAME)
     pub bindspine: Vec<String>,
     pub refop: Vec<String>,
     pub bindarg: Vec<(String, usize, usize, String)>, // (callee, K-th statement-level call, arg index, name)
@@ -407,7 +408,18 @@ pub fn parse(text: &str) -> Result<Unit, String> {
                     "foriter" => { for k in a.split_whitespace() { f.foriter.insert(k.parse().map_err(|_| format!("line {ln}: @foriter K"))?); } }
                     "forloop" => { for k in a.split_whitespace() { f.forloop.insert(k.parse().map_err(|_| format!("line {ln}: @forloop K"))?); } }
                     "may-panic" => { for k in a.split_whitespace() { f.may_panic.insert(k.parse().map_err(|_| format!("line {ln}: @may-panic K"))?); } }
-                    "letsplit" => f.letsplit.extend(a.split_whitespace().map(String::from)),
+                    "letsplit" => {
+                        // `@letsplit m1 m2` (receiver chains in let initialisers) and/or `@letsplit METHOD#k NAME` (named receiver)
+                        let toks: Vec<&str> = a.split_whitespace().collect();
+                        let mut i = 0;
+                        while i < toks.len() {
+                            if toks[i].contains('#') {
+                                let nm = toks.get(i + 1).ok_or(format!("line {ln}: @letsplit METHOD#k NAME"))?;
+                                f.letsplit_named.push((toks[i].to_string(), nm.to_string()));
+                                i += 2;
+                            } else { f.letsplit.push(toks[i].to_string()); i += 1; }
+                        }
+                    }
                     "bindspine" => f.bindspine.extend(a.split_whitespace().map(String::from)),
                     "bindarg" => {
                         // @bindarg CALLEE#K IDX NAME
